@@ -1622,7 +1622,7 @@ type openSSHECDSAPrivateKey struct {
 // function to unwrap the encrypted portion. unencryptedOpenSSHKey can be used
 // as the decrypt function to parse an unencrypted private key. See
 // https://github.com/openssh/openssh-portable/blob/master/PROTOCOL.key.
-func parseOpenSSHPrivateKey(key []byte, decrypt openSSHDecryptFunc) (crypto.PrivateKey, error) {
+func parseOpenSSHPrivateKey(key []byte, decrypt openSSHDecryptFunc) (parsed crypto.PrivateKey, err error) {
 	if len(key) < len(privateKeyAuthMagic) || string(key[:len(privateKeyAuthMagic)]) != privateKeyAuthMagic {
 		return nil, errors.New("ssh: invalid openssh private key format")
 	}
@@ -1637,6 +1637,17 @@ func parseOpenSSHPrivateKey(key []byte, decrypt openSSHDecryptFunc) (crypto.Priv
 		// https://github.com/openssh/openssh-portable/blob/4103a3ec7/sshkey.c#L4171
 		return nil, errors.New("ssh: multi-key files are not supported")
 	}
+	// The public key stored outside the encrypted section must be the public
+	// key of the private key that is returned.
+	defer func() {
+		if err != nil {
+			return
+		}
+		signer, serr := NewSignerFromKey(parsed)
+		if serr != nil || !bytes.Equal(signer.PublicKey().Marshal(), w.PubKey) {
+			parsed, err = nil, errors.New("ssh: public key does not match private key")
+		}
+	}()
 
 	privKeyBlock, err := decrypt(w.CipherName, w.KdfName, w.KdfOpts, w.PrivKeyBlock)
 	if err != nil {
